@@ -30,6 +30,8 @@ def population(tier, seed):
             g = gen.lr1_not_lalr(rng, i)
         elif r < 0.14:
             g = gen.recovery_shapes(rng, i)
+        elif r < 0.2:
+            g = gen.ascent_slots(rng, i)
         elif r < 0.55:
             g = gen.random_grammar(rng, i, max_nt=3, max_t=3, max_prods=7, max_rhs=3,
                                    starts=(2 if rng.random() < 0.2 else 1))
@@ -44,7 +46,12 @@ def population(tier, seed):
         if rng.random() < 0.3:
             g = core.add_markers(g, rng)
         # recovery shapes: more locations and fallible actions (their failure and spans during recovery matter)
-        pop.append(core.annotate(g, rng, p_loc=0.5, p_fallible=0.4) if g.get("recshape") else core.annotate(g, rng))
+        if g.get("recshape"):
+            pop.append(core.annotate(g, rng, p_loc=0.5, p_fallible=0.4))
+        elif g.get("locshape"):
+            pop.append(core.annotate(g, rng, p_loc=0.8, p_fallible=0.05))
+        else:
+            pop.append(core.annotate(g, rng))
     return pop
 
 
